@@ -114,6 +114,55 @@ CHECKS = {
    note="app tree = root + one sub-app with two contexts each, <= 1 (quick) / 2 (thorough) failing start-up steps; GracefulExit "
         "raised by a loop callback (no OS signals, no gunicorn); part B on in-memory transports with a recording BaseSite, scripted "
         "handler durations, T=2 virtual ticks (random driver up to T=6); eager task start not reproduced by the stepping loop; " + TRUST),
+ "C09": dict(
+   technique="Explicit-state model checking with TLC of an implementation-shaped TLA+ model of the transport / parser / decoder / "
+             "reader flow-control protocol (BodyFlow.tla: all interleavings for small constants, safety, deadlock, liveness under "
+             "weak fairness), bound to the code by replaying TLC behaviours (transition cover + simulated) into the real pipeline "
+             "and by TLC trace validation (BodyFlowTrace.tla) of every recorded execution against an observational monitor",
+   text="Exhaustive for the bounded model (<= 4 pieces, expansions {0,1,6}, limit in {1,2}, reads {1,3,all}; Length / Chunked / "
+        "UntilEOF x zlib-like / zstd-like / identity; client and server): Resident (decoded bytes buffered <= 3 x limit), "
+        "OneCallBudget, NoInputLost, ErrorNotData, NoDeadlock, MaxSize, progress to EOF; plus conformance of the real code on "
+        "~1.1k (quick) / ~10k (thorough) recorded executions over a payload corpus (bombs, members, truncations, bit flips) x "
+        "framings x segmentations x consumer schedules x buffer sizes, each judged clause by clause in TLC.",
+   design_ref="DESIGN.md §4 C09",
+   note="zlib, brotli and zstd are trusted (reference = their one-shot decode, CRC digests); Brotli's output limit is soft (bound "
+        "2 x limit + 32 KiB per call); decode calls observed through a harness-side wrapper; read()/read(-1) lift the memory bound "
+        "by design; codec abstract in the model, zstd block buffering and the reader's chunk-count water mark not modelled; " + TRUST),
+ "C11": dict(
+   technique="Implementation-shaped TLA+ model of concurrent senders through WebSocketWriter (WsSend.tla) checked exhaustively by "
+             "TLC; TLC schedules and seeded random schedules executed on the real writer -> reader pipe under the stepping loop "
+             "and every execution judged by TLC (WsSendTrace.tla), the wire bytes parsed by the WsFrames reference",
+   text="Exhaustive bounded model checking of lock / shield / executor / cancel / override interleavings (context order, "
+        "cancellation atomicity, decode, exactly-once, order, close) plus conformance: real executions must deliver identical "
+        "payloads exactly once and in per-sender order in every segmentation, with reference-valid framing (minimal length, mask "
+        "bit, RSV1, deflate tail) at payload sizes around 125/126/65535/65536 and the 16 KiB executor threshold.",
+   design_ref="DESIGN.md §4 C11",
+   note="zlib trusted; payload equality byte-exact <= 256 bytes, length + SHA-1 above; the executor runs inline on a later loop "
+        "step; model steps match real handles only approximately (affects schedule coverage, never verdicts); " + TRUST),
+ "C12": dict(
+   technique="TLA+ reference machine of an RFC 6455 / 7692 frame reader (WsFrames.tla) model-checked exhaustively by TLC against "
+             "an independent frame-level rule table, with executions of the real WebSocketReader in grouped segmentations "
+             "validated by TLC trace validation (WsFramesTrace.tla)",
+   text="Bounded exhaustive model checking of the reference reader (agreement with a frame-level rule table, fail latch, cut "
+        "invariance, retained-bytes bound) plus conformance: every recorded feed_data call of the real reader must match the "
+        "reference's delivered messages, close code, latch, memory bound and segmentation independence (82 violation classes "
+        "injected at frame positions; whole / every single cut / byte-wise / random / pairs of cuts).",
+   design_ref="DESIGN.md §4 C12",
+   note="inflate uninterpreted (results logged by a wrapper class in the harness); size equality permits either outcome; detection "
+        "allowed between the earliest point and the frame end; masking direction and minimal length not enforced (THREAT_MODEL); "
+        "pure-Python reader only; " + TRUST),
+ "C13": dict(
+   technique="Explicit-state model checking with TLC of an implementation-shaped TLA+ model of both WebSocket session classes "
+             "(WsSession.tla) over all interleavings of tasks, peer frames, timers, cancellation and connection loss, bound to the "
+             "code by replaying every edge of the model's state graph into the real WebSocketResponse / ClientWebSocketResponse "
+             "and by TLC-judged trace validation (WsSessionTrace.tla) of all recorded executions",
+   text="Exhaustive for the bounded configurations (1 receiver, 1 closer, optional sender; <= 3 peer frames, <= 1 drop, <= 1 cancel, "
+        "virtual time): OneCloseFrame, NoDataAfterClose, ClosedClosesTransport, CloseCodeRule, ReceiveNotStuck, CloserNotStuck, "
+        "CloseBounded, CloseWaitResolved; plus conformance over 7.6k (quick) / 76k (thorough) recorded executions of the real "
+        "classes (transition cover, simulated, random schedules incl. heartbeat, autoclose/autoping off, receive timeouts).",
+   design_ref="DESIGN.md §4 C13",
+   note="no compression or write back-pressure in the model; time is virtual and advances only when the loop is idle; "
+        "CloseCodeRule judged permissively on observables; independent frame codec in engine/wskit.py; " + TRUST),
  "C14": dict(
    technique="TLC model-checks the documented lookup rule as a structural TLA+ reference machine (UrlDispatch.tla) exhaustively over "
              "small route tables, and decides, as an oracle trace specification (UrlDispatchTrace.tla), every observation recorded "
@@ -174,6 +223,19 @@ CHECKS = {
         "non-structural byte are run-length encoded identically on both sides; work counted as awaits and loop back-edges via "
         "sys.monitoring against calibrated linear bounds, never wall clock; request.post() on a mocked Request over a real "
         "StreamReader; " + TRUST),
+ "C18": dict(
+   technique="Explicit-state model checking with TLC of an implementation-shaped TLA+ model (ClientTimeouts.tla), bound to the code "
+             "by replaying every scripted TLC scenario (stall point x timeout kind x cancel point) and random schedules into the "
+             "real ClientSession / TCPConnector under a virtual-time stepping loop and validating every recorded execution against "
+             "the TLA+ trace specification (ClientTimeoutsTrace.tla)",
+   text="Exhaustive for small constants (victim + bystander, pool limit 1-2, one caller cancel, delays in half-seconds): Bounded "
+        "(total / connect / sock_connect / sock_read incl. the documented ceiling), TimeoutClass, CancelPropagates, NoResidue, "
+        "BystanderUnharmed, SessionUsable; all 795 scripted scenarios (3,800 replays) plus random fault schedules are executed on "
+        "the real client stack and judged by TLC.",
+   design_ref="DESIGN.md §4 C18",
+   note="resolver, sockets and transports below TCPConnector are replaced by stallable in-memory fakes (engine/tcpkit.py); one "
+        "resolved address; TLS, proxies, happy-eyeballs, redirects and traces not driven; WebSocket close timeout is C13; the "
+        "harness attributes transports, tasks and timers to the victim; " + TRUST),
 }
 
 NA_REASON = "check not built yet (in progress)"
